@@ -157,6 +157,13 @@ class T:
         for s in self.fn.body:
             if isinstance(s, ast.Expr) and isinstance(s.value, ast.Constant):
                 continue     # docstring
+            if ret_var == "@nonzero":
+                # the result is whatever boolean / 0-1 mask the function hands to np.nonzero / np.where / np.flatnonzero, however it is named or nested
+                call = next((n for n in ast.walk(s) if isinstance(n, ast.Call) and isinstance(n.func, ast.Attribute)
+                             and n.func.attr in ("nonzero", "where", "flatnonzero") and len(n.args) == 1), None)
+                if call is not None:
+                    ret = self.tree(call.args[0])
+                    break
             if isinstance(s, ast.Assign) and len(s.targets) == 1 and isinstance(s.targets[0], ast.Name):
                 try:
                     self.lets[s.targets[0].id] = self.tree(s.value)
@@ -174,7 +181,7 @@ class T:
                 raise Untranslatable(ast.dump(s)[:200])
         if ret is None:
             raise Untranslatable(f"no result found for {name}")
-        t = self.norm(("b2i", ret) if (self.isbool(ret) and ret_var is None) else ret)
+        t = self.norm(("b2i", ret) if (self.isbool(ret) and (ret_var is None or ret_var == "@nonzero")) else ret)
         if t[0] == "tup":
             rty = " × ".join(["Int"] * len(t[1]))
         elif self.isbool(t):
@@ -216,7 +223,7 @@ KERNELS = [
     ("hso_next_direction", "example_graphs.py", "next_direction", "hex_square_oct_lattice", {"shift": 2}, None, None),
     ("fluxes_to_labels", "flux_finder/flux_finder.py", "fluxes_to_labels", None, {}, None, None),
     # the keep-mask of cut_boundaries, elementwise in (crossing0, crossing1), boundary_to_cut as two 0/1 integers
-    ("cut_keep", "lattice.py", "cut_boundaries", None, {}, "cond", ["crossing0", "crossing1", "boundary_to_cut0", "boundary_to_cut1"]),
+    ("cut_keep", "lattice.py", "cut_boundaries", None, {}, "@nonzero", ["crossing0", "crossing1", "boundary_to_cut0", "boundary_to_cut1"]),
 ]
 
 
